@@ -94,6 +94,56 @@ let () =
                { hi_rel = z_of_int rel; hi_cont = cont; hi_vals = vals }) in
            let data = hist_run fops vm c steps in
            Printf.printf "%s\n" (String.concat " " (List.map hex data))
+         | "OPB" ->
+           let nd = ni () in let nx = nzlist nd in let lower = nflist nd in let width = nflist nd in
+           let per = List.init nd (fun _ -> ni () <> 0) in let xs = nflist nd in
+           let parts = List.mapi (fun i x ->
+               let l = List.nth lower i and wd = List.nth width i and n = List.nth nx i and pp = List.nth per i in
+               Printf.sprintf "%d %d %s" (int_of_z (value_to_bin fops l wd x)) (int_of_z (value_to_bin_bound fops pp l wd n x))
+                 (hex (bin_fraction fops l wd x))) xs in
+           Printf.printf "%s I%s\n" (String.concat " " parts)
+             (String.concat "" (List.map (fun z -> " " ^ string_of_int (int_of_z z)) (bins fops lower width xs)))
+         | "OPW" ->
+           let nd = ni () in let nx = nzlist nd in let per = List.init nd (fun _ -> ni () <> 0) in let ix = nzlist nd in
+           let ((r, e), edge) = wrap_to_edge per nx ix in
+           let zs l = String.concat " " (List.map (fun z -> string_of_int (int_of_z z)) l) in
+           Printf.printf "%s E %s %d W %s\n" (zs r) (zs e) (if edge then 1 else 0)
+             (match wrap_strict per nx ix with Some w2 -> zs w2 | None -> "ERR")
+         | "OPM" | "OPE" ->
+           let op = if w.(0) = "OPE" then next () else "map" in
+           let c = if w.(0) = "OPE" then nf () else 0.0 in
+           let rd () =
+             let mult = ni () in let nd = ni () in
+             let nx = nzlist nd in let lower = nflist nd in let upper = nflist nd in let width = nflist nd in
+             let per = List.init nd (fun _ -> ni () <> 0) in
+             let n = ni () in let data = nflist n in
+             { gr_mult = z_of_int mult; gr_nx = nx; gr_lower = lower; gr_upper = upper; gr_width = width; gr_per = per; gr_data = data } in
+           let g1 = rd () in let g2 = rd () in
+           let bad = (g1.gr_mult <> g2.gr_mult && (op = "map" || op = "add" || op = "copy" || op = "delta"))
+                     || (List.length g1.gr_data <> List.length g2.gr_data && (op = "copy" || op = "delta")) in
+           if bad then Printf.printf "ERR\n" else begin
+             let d = match op with
+               | "map" -> map_grid fops g1 g2
+               | "add" -> add_grid fops c g1.gr_data g2.gr_data
+               | "copy" | "raw" | "rawv" | "set" -> g2.gr_data
+               | "delta" -> delta_grid fops g1.gr_data g2.gr_data
+               | "mul" -> multiply_constant fops c g1.gr_data
+               | "addc" -> add_constant fops c g1.gr_data
+               | "small" -> remove_small_values fops c g1.gr_data
+               | _ -> [] in
+             print_grid { g1 with gr_data = d }
+           end
+         | "XBIN" ->
+           (* XBIN nd {l u w period}.. : sizes, boundaries and flags of the grid shifted by half a bin (add_extra_bin) *)
+           let nd = ni () in
+           let dims = List.init nd (fun _ -> let l = nf () in let u = nf () in let wd = nf () in let pp = nf () in (l, u, wd, pp)) in
+           let res = List.map (fun (l, u, wd, pp) ->
+               let c = { cv_period = pp; cv_width = wd } in
+               let ((_, _), per0) = init_dim fops c l u wd in
+               let (l', u') = extra_bin_dim fops per0 l u wd in
+               let ((n, u''), per1) = init_dim fops c l' u' wd in
+               Printf.sprintf "%d %s %s %d" (int_of_z n) (hex l') (hex u'') (if per1 then 1 else 0)) dims in
+           Printf.printf "%s\n" (String.concat " " res)
          | "DEC" ->
            let pd = ni () in let x = nf () in
            Printf.printf "%s\n" (hex (dec_round fops (nat_of_int pd) (nat_of_int 400) x))
